@@ -47,8 +47,22 @@ def _cat(*xs):
     return torch.cat(cols, dim=-1)
 
 
+SPLIT = [False]      # build 2-D shapes over the product space x1 * x2 (two one-dimensional variables) instead of x
+
+
 def space_of(v):
+    if SPLIT[0] and v == "x":
+        return Space({"x1": 1}) * Space({"x2": 1})
     return Space({v: SPACES[v]})
+
+
+def build_split(e):
+    """the same expression over the product space x1 * x2 (only for expressions whose single space variable is x)"""
+    SPLIT[0] = True
+    try:
+        return build(e)
+    finally:
+        SPLIT[0] = False
 
 
 def build(e):
